@@ -19,6 +19,8 @@ package resilience
 
 import (
 	"context"
+	"fmt"
+	"math"
 	"math/rand"
 	"time"
 )
@@ -50,7 +52,19 @@ type RetryPolicy struct {
 
 // Validate validates the retry policy.
 func (p *RetryPolicy) Validate() error {
-	// TODO
+	// NOTE: the generated JSON schema drops `minimum=0`, so the lower bound
+	// has to be checked here.
+	if p.RandomizationFactor < 0 {
+		return fmt.Errorf("randomizationFactor must not be negative")
+	}
+	// Wrap draws the jitter with rand.Intn(int(2*wait*factor+1)).
+	wait := 500 * time.Millisecond
+	if d, err := time.ParseDuration(p.WaitDuration); err == nil && d > 0 {
+		wait = d
+	}
+	if float64(wait)*p.RandomizationFactor*2+1 >= math.MaxInt64 {
+		return fmt.Errorf("waitDuration is too large")
+	}
 	return nil
 }
 
